@@ -4,10 +4,11 @@
    The extracted model is run against the real containers on every ./check (T-cor). *)
 From Coq Require Import ZArith List Bool.
 From MomoCommon Require Import GenPrelude.
-From C14 Require Import PropagationModel Model Proofs Bodies BodiesProofs Crew GenProofs GenProofs2 GenProofs3.
+From C14 Require Import PropagationModel Model Proofs Bodies BodiesProofs Crew GenProofs GenProofs2 GenProofs3 GenProofs4.
 From C14 Require Gen_TreeSet Gen_HashSet Gen_HashMultiMap Gen_DataTable Gen_SetCrew Gen_CrewContract.
 From C14 Require Gen_SetCrew2 Gen_SetCrewInl Gen_TreeSet2 Gen_HashSet2 Gen_DataTable2 Gen_MemPool Gen_MemPoolData Gen_MergeToFacts.
 From C14 Require Gen_TreeSet3 Gen_HashSet3 Gen_TableCrew Gen_DataTable3 Gen_HashMultiMap2 Gen_AssignShapes Gen_StdishDecisions.
+From C14 Require Gen_PvAssignTable Gen_CtorCatch.
 Import ListNotations.
 Local Open Scope Z_scope.
 
@@ -554,10 +555,10 @@ Print Assumptions C14_gen_crew_contract.
    DataTable::Clear: in the moved-from state (crew null, storage pointers null) each returns normally, for every value of
    the other fields and arguments, without reaching any crew access, and leaves the fields unchanged. *)
 Theorem C14_gen_moved_from_frame :
-  forall cnt cap shrink,
+  forall nb cnt cap shrink,
     Gen_TreeSet.Clear true cnt 0 0 = GenPrelude.Ok (tt, cnt, 0, 0) /\
     Gen_TreeSet.pvDestroy true cnt 0 0 = GenPrelude.Ok tt /\
-    Gen_HashSet.Clear true cnt cap 0 shrink = GenPrelude.Ok (tt, cnt, cap, 0) /\
+    Gen_HashSet.Clear true nb cnt cap 0 shrink = GenPrelude.Ok (tt, cnt, cap, 0) /\
     Gen_HashMultiMap.Clear true cnt = GenPrelude.Ok (tt, cnt) /\
     Gen_DataTable.Clear true = GenPrelude.Ok tt.
 Proof. exact gen_moved_from_frame. Qed.
@@ -575,8 +576,8 @@ Print Assumptions C14_gen_tree_clear_owned.
 
 (* generated HashSet::Clear(shrink) with a live crew *)
 Theorem C14_gen_hash_clear_owned :
-  forall cnt cap bk shrink,
-    exists cnt' cap' bk', Gen_HashSet.Clear false cnt cap bk shrink = GenPrelude.Ok (tt, cnt', cap', bk') /\
+  forall nb cnt cap bk shrink,
+    exists cnt' cap' bk', Gen_HashSet.Clear false nb cnt cap bk shrink = GenPrelude.Ok (tt, cnt', cap', bk') /\
       (bk = 0 -> cnt' = cnt /\ cap' = cap /\ bk' = 0) /\
       (bk <> 0 -> cnt' = 0 /\ (shrink = true -> cap' = 0 /\ bk' = 0) /\ (shrink = false -> cap' = cap /\ bk' = bk)).
 Proof. exact gen_hash_clear_owned. Qed.
@@ -590,7 +591,7 @@ Proof. exact gen_tree_needs_crew_when_owning. Qed.
 Print Assumptions C14_gen_needs_crew_when_owning.
 
 Theorem C14_gen_hash_needs_crew_when_owning :
-  forall cnt cap bk shrink, bk <> 0 -> Gen_HashSet.Clear true cnt cap bk shrink = GenPrelude.Stuck.
+  forall nb cnt cap bk shrink, bk <> 0 -> Gen_HashSet.Clear true nb cnt cap bk shrink = GenPrelude.Stuck.
 Proof. exact gen_hash_needs_crew_when_owning. Qed.
 Print Assumptions C14_gen_hash_needs_crew_when_owning.
 
@@ -605,7 +606,7 @@ Print Assumptions C14_gen_multi_table_clear.
 Theorem C14_clear_refines_generated :
   forall c w, cc_wf c ->
     is_ok (cc_clear KTree c w) = gen_ok (Gen_TreeSet.Clear (crew_null_of c) (count_of c) (storage_of c) (storage_of c)) /\
-    is_ok (cc_clear KHash c w) = gen_ok (Gen_HashSet.Clear (crew_null_of c) (count_of c) (count_of c) (storage_of c) true) /\
+    is_ok (cc_clear KHash c w) = gen_ok (Gen_HashSet.Clear (crew_null_of c) 0 (count_of c) (count_of c) (storage_of c) true) /\
     is_ok (cc_clear KMulti c w) = gen_ok (Gen_HashMultiMap.Clear (crew_null_of c) (count_of c)) /\
     is_ok (cc_clear KTable c w) = gen_ok (Gen_DataTable.Clear (crew_null_of c)) /\
     (forall k c' w', cc_clear k c w = Ok c' w' -> items_of c' = []).
@@ -699,9 +700,9 @@ Theorem C14_gen_moved_from_then_clear :
      let '(_, _, _, _, sc, sn, sr, sp) := Gen_TreeSet3.MoveCtor c n r p c' n' r' p' in
      Gen_TreeSet.Clear (Gen_SetCrew.pvIsNull sc) sn sr sp = GenPrelude.Ok (tt, sn, sr, sp) /\
      Gen_TreeSet.pvDestroy (Gen_SetCrew.pvIsNull sc) sn sr sp = GenPrelude.Ok tt) /\
-  (forall c n k b c' n' k' b' shrink,
+  (forall nb c n k b c' n' k' b' shrink,
      let '(_, _, _, _, sc, sn, sk, sb) := Gen_HashSet3.MoveCtor c n k b c' n' k' b' in
-     Gen_HashSet.Clear (Gen_SetCrew.pvIsNull sc) sn sk sb shrink = GenPrelude.Ok (tt, sn, sk, sb)) /\
+     Gen_HashSet.Clear (Gen_SetCrew.pvIsNull sc) nb sn sk sb shrink = GenPrelude.Ok (tt, sn, sk, sb)) /\
   (forall mv c r p i c' r' p' i',
      let '(_, _, _, _, sc, _, _, _) := Gen_DataTable3.MoveCtor mv c r p i c' r' p' i' in
      Gen_DataTable.Clear (Gen_TableCrew.IsNull sc 0) = GenPrelude.Ok tt).
@@ -780,3 +781,38 @@ Theorem C14_gen_D13_refuted :
        w_copy_assign wk tr MovedFrom c w = NullCrew).
 Proof. exact gen_D13_refuted. Qed.
 Print Assumptions C14_gen_D13_refuted.
+
+(* ---- (14) round 9 ------------------------------------------------------------------------------------------------------ *)
+(* MemManagerStd<A>::operator=(MemManagerStd&&): for each of the 16 (POCCA, POCMA, POCS, nothrow-move-assignable) allocator types
+   the pvAssign overload chosen by the compiler (read off the clang AST) is the one PropagationModel.mms_pvAssign predicts, and
+   operator= is disabled exactly where the model says so *)
+Theorem C14_pvassign_overload_choice :
+  map fst Gen_PvAssignTable.pvassign_table = all16 /\
+  Forall (fun row => let '(ca, ma, sw, nm, k) := row in
+            mms_pvAssign (mkTraits ca ma sw nm false) = k /\
+            (mms_assign_enabled (mkTraits ca ma sw nm false) = false <-> k = ADisabled))
+         Gen_PvAssignTable.pvassign_table.
+Proof. exact pvassign_overload_choice. Qed.
+Print Assumptions C14_pvassign_overload_choice.
+
+(* a failed copy construction destroys nothing twice: the catch blocks of the (delegating) copying constructors null what they
+   destroyed, and the generated destructor bodies are no-ops on nulled storage pointers *)
+Theorem C14_failed_copy_no_double_destroy :
+  Gen_CtorCatch.hash_copy_ctor_catch = hash_catch_expected /\ Gen_CtorCatch.hash_copy_ctor_delegates = true /\
+  Gen_CtorCatch.tree_copy_ctor_catch = tree_catch_expected /\ Gen_CtorCatch.tree_copy_ctor_delegates = true /\
+  Gen_CtorCatch.multi_copy_ctor_catch = multi_catch_expected /\ Gen_CtorCatch.multi_copy_ctor_delegates = false /\
+  Gen_CtorCatch.table_fill_outer_catch = table_catch_expected /\ Gen_CtorCatch.table_copy_ctor_delegates = true /\
+  (forall crew_null cnt cap, Gen_HashSet.pvDestroy crew_null cnt cap 0 = GenPrelude.Ok tt) /\
+  (forall crew_null cnt, Gen_TreeSet.pvDestroy crew_null cnt 0 0 = GenPrelude.Ok tt).
+Proof. exact failed_copy_no_double_destroy. Qed.
+Print Assumptions C14_failed_copy_no_double_destroy.
+
+(* generated HashSet::pvDestroy(Buckets*, bool) and pvDestroy() *)
+Theorem C14_gen_hash_destroy :
+  (forall crew_null cnt cap bk flag, Gen_HashSet.pvDestroyB crew_null cnt cap bk 0 flag = GenPrelude.Ok tt) /\
+  (forall cnt cap bk b flag, Gen_HashSet.pvDestroyB false cnt cap bk b flag = GenPrelude.Ok tt) /\
+  (forall cnt cap bk b flag, b <> 0 -> Gen_HashSet.pvDestroyB true cnt cap bk b flag = GenPrelude.Stuck) /\
+  (forall cnt cap bk, Gen_HashSet.pvDestroy false cnt cap bk = GenPrelude.Ok tt) /\
+  (forall cnt cap bk, bk <> 0 -> Gen_HashSet.pvDestroy true cnt cap bk = GenPrelude.Stuck).
+Proof. exact gen_hash_destroy. Qed.
+Print Assumptions C14_gen_hash_destroy.
